@@ -20,9 +20,9 @@ func init() {
 	})
 	prop(&PropertySpec{
 		ID: "C04", Level: "other",
-		Rules: []string{"R04.1", "R04.2", "R04.3", "R03.1", "R03.5"},
+		Rules: []string{"R04.1", "R04.2", "R04.3", "R03.1", "R03.5", "R08.1", "R08.2"},
 		Explanation: "Decides the replay/live boundary structure: R04.1 Put precedes the fan-out whenever a replayer is configured; R04.2 the message handed to Send is loaded from the cell into which Put's ID-carrying result is stored whenever it is non-nil (and Put did not fail); " +
-			"R04.3 replay and registration happen in one loop iteration with no channel operation between them, the insert is reached exactly when Replay did not return a genuine error, and a failed replay sends the error, closes and does not register; R03.1 the replayer is only used from the loop goroutine (Put and Replay never overlap); R03.5 no select between accept and fan-out.",
+			"R04.3 replay and registration happen in one loop iteration with no channel operation between them, the insert is reached exactly when Replay did not return a genuine error, and a failed replay sends the error, closes and does not register; R03.1 the replayer is only used from the loop goroutine (Put and Replay never overlap); R03.5 no select between accept and fan-out; R08.1/R08.2 automatic IDs are consecutive in Put order (a rejected Put consumes none), which the automatic-ID lookup relies on.",
 		NotDecided: "which elements each(i) visits for a given start index and what findIDInQueue computes for evicted/absent IDs (ring index arithmetic; only the start-index protocol R08.5 and the copy order R18.5 are decided), eviction arithmetic, equality of ID values beyond R04.2.",
 	})
 	prop(&PropertySpec{
@@ -1130,6 +1130,27 @@ func r07_4(c *Ctx) {
 	if n == 0 {
 		c.bad(fnLabel(fn)+":close(j.done)", P.pos(fn.Pos()), "Shutdown never closes j.done: the loop is never told to stop")
 	}
+	// every return of Shutdown is preceded by the close: a Shutdown that returns has told the loop to stop
+	{
+		skip := false
+		var at ssa.Instruction
+		for _, ret := range returnsOf(fn) {
+			if reachesAvoiding(entryPoint(fn), ret, func(in ssa.Instruction) bool {
+				cl, ok := isBuiltin(in, "close")
+				if !ok {
+					return false
+				}
+				if _, isDefer := in.(*ssa.Defer); isDefer {
+					return false
+				}
+				return isJoeField(cl.Common().Args[0], "done")
+			}, nil) {
+				skip = true
+				at = ret
+			}
+		}
+		c.check(!skip, fnLabel(fn)+":always-signals", posOfInstr(P, at, fn), "every path of Shutdown closes j.done before returning", "a path of Shutdown returns without closing j.done (e.g. when its context is already done): the loop is never told to stop, pending Subscribe calls never return and a later Shutdown reports success")
+	}
 	// Shutdown's wait: select on j.closed and ctx.Done(); returns ctx.Err() on the latter
 	var sel *ssa.Select
 	eachInstr(fn, func(in ssa.Instruction) {
@@ -1583,4 +1604,11 @@ func firstOf(fn *ssa.Function, pred func(ssa.Instruction) bool) ssa.Instruction 
 		}
 	})
 	return out
+}
+
+func posOfInstr(P *Program, in ssa.Instruction, fn *ssa.Function) string {
+	if in != nil {
+		return P.ipos(in)
+	}
+	return P.pos(fn.Pos())
 }
